@@ -118,6 +118,28 @@ def run_case(sh, s, d, case):
                 if df:
                     diffs = [('after-reopen%s' % ('-noindex' if drop else ''),) + x for x in df[:3]]
                     break
+        if not diffs and kind in ('mapping', 'demo', 'demo-base') and dr.spec.txns:
+            # a garbage-collecting pack may remove the newest transactions (the driver's objects hang on nothing): the ids handed
+            # out afterwards must still be above everything reported before, whatever the clock does
+            from ZODB.serialize import referencesf
+            from ZODB.Connection import TransactionMetaData
+            from ZODB.utils import p64, z64
+            from zv import objs
+            last_before = dr.st.lastTransaction()
+            try:
+                dr.st.pack(clk.now + 10, referencesf)
+                sh.count('packs_before_a_further_commit')
+            except Exception as e:
+                sh.note('pack_exceptions', type(e).__name__)
+            tm_ = TransactionMetaData(b'', b'after pack')
+            dr.st.tpc_begin(tm_)
+            dr.st.store(dr.st.new_oid(), z64, objs.cell_record('after pack'), '', tm_)
+            dr.st.tpc_vote(tm_)
+            tid_new = dr.st.tpc_finish(tm_)
+            sh.count('tid_monotonic_checks')
+            if not tid_new > last_before:
+                sh.violation('c04:tids-not-strictly-increasing', {'clock': mode, 'tids': [last_before, tid_new], 'after_pack': True, 'trace': dr.trace}, case)
+                return None
     except Mismatch as e:
         sh.violation('c04:' + e.mechanism, {'detail': e.detail, 'trace': dr.trace, 'kind': kind}, case)
         return None
